@@ -212,13 +212,13 @@ def opcodes():
     return _OPS
 
 
-def run_model(cases, timeout=1800):
+def run_model(cases, timeout=900):
     """cases: list of (opname, python arg) -> list of python values from the extracted model"""
     if not cases:
         return []
     ops = opcodes()
     inp = "".join(f"{ops[op]} {v_text(a)}\n" for op, a in cases)
-    p = subprocess.run(["bash", "-c", f"ulimit -s unlimited 2>/dev/null; exec {BIN}"], input=inp.encode(),
+    p = subprocess.run(["bash", "-c", f"ulimit -s unlimited 2>/dev/null; ulimit -v 8000000 2>/dev/null; exec {BIN}"], input=inp.encode(),
                        stdout=subprocess.PIPE, stderr=subprocess.PIPE, timeout=timeout)
     lines = p.stdout.decode().splitlines()
     if len(lines) != len(cases):
